@@ -2,6 +2,8 @@
 // Histories of mode/start/pause/mirror writes, Restart, Tick, TickEvent and Skip(k <= reported horizon)
 // on the real Teakra::Timer, checked after every op against (1) the cycle-exact model ref_timer.h and
 // (2) a twin timer that performs k x Tick() wherever the first one performs Skip(k).
+// Second property: two timers registered on one CoreTiming (as in the emulator); CoreTiming::Skip(max) must return
+// min(max, both horizons) and leave both timers where that many CoreTiming::Tick() calls leave the twin pair.
 #include "vf.h"
 #include "ref_timer.h"
 
@@ -258,6 +260,134 @@ vf::Result check(const Case& cs) {
     return vf::Result::pass();
 }
 
+// ---- two timers on one CoreTiming: the bulk advance as the core uses it ---------------------------------------------------------
+// CoreTiming::Skip(max) must advance every registered component by the same k = min(max, all horizons) and return it; the twin pair
+// performs k x CoreTiming::Tick().
+struct POp {
+    int kind = 0; // 0 configure+restart, 1 tick, 2 skip, 3 pause toggle
+    unsigned which = 0;
+    uint64_t a = 0, b = 0;
+};
+using PCase = std::vector<POp>;
+struct PairSut {
+    Teakra::CoreTiming ct;
+    Teakra::Timer t0{ct}, t1{ct};
+    uint64_t irqs[2] = {0, 0};
+    PairSut() {
+        t0.SetInterruptHandler([this] { ++irqs[0]; });
+        t1.SetInterruptHandler([this] { ++irqs[1]; });
+        t0.update_mmio = t1.update_mmio = 1;
+    }
+    Teakra::Timer& t(unsigned i) {
+        return i ? t1 : t0;
+    }
+};
+std::string pencode(const PCase& c) {
+    std::string s;
+    for (auto& op : c)
+        s += "p " + vf::hex(op.kind) + " " + vf::hex(op.which) + " " + vf::hex(op.a) + " " + vf::hex(op.b) + "\n";
+    return s;
+}
+PCase pdecode(const std::string& text) {
+    PCase c;
+    for (auto& l : vf::lines(text)) {
+        auto t = vf::split_ws(l);
+        if (t.size() < 5 || t[0] != "p")
+            continue;
+        POp op;
+        op.kind = (int)vf::unhex(t[1]) % 4;
+        op.which = (unsigned)vf::unhex(t[2]) & 1;
+        op.a = vf::unhex(t[3]);
+        op.b = vf::unhex(t[4]);
+        c.push_back(op);
+    }
+    return c;
+}
+vf::Result pcheck(const PCase& cs) {
+    PairSut A, B;
+    std::string trace;
+    bool nontrivial = false;
+    auto fail = [&](const std::string& sig, const std::string& what, size_t i) {
+        return vf::Result::fail(sig, what + " at op " + std::to_string(i) + " (" + trace + ")");
+    };
+    for (size_t i = 0; i < cs.size(); ++i) {
+        const POp& op = cs[i];
+        try {
+            switch (op.kind) {
+            case 0: // configure + restart one timer (event-count mode left to the single-timer property)
+                for (PairSut* s : {&A, &B}) {
+                    Teakra::Timer& t = s->t(op.which);
+                    t.count_mode = static_cast<Teakra::Timer::CountMode>(op.a % 3);
+                    t.start_low = (uint16_t)op.b;
+                    t.start_high = (uint16_t)(op.b >> 16);
+                    t.Restart();
+                }
+                trace += "cfg" + std::to_string(op.which) + "(m" + std::to_string(op.a % 3) + "," + vf::hex(op.b) + ") ";
+                break;
+            case 1: {
+                uint64_t n = 1 + op.a % 6;
+                for (uint64_t j = 0; j < n; ++j) {
+                    A.ct.Tick();
+                    B.ct.Tick();
+                }
+                trace += "tick*" + std::to_string(n) + " ";
+                break;
+            }
+            case 2: {
+                uint64_t max = op.a;
+                uint64_t h0 = A.t0.GetMaxSkip(), h1 = A.t1.GetMaxSkip();
+                uint64_t want = std::min(max, std::min(h0, h1));
+                uint64_t k = A.ct.Skip(max);
+                trace += "skip(max=" + std::to_string(max) + ")=" + std::to_string(k) + " ";
+                if (k != want)
+                    return fail("C15:coretiming:k", "CoreTiming::Skip(" + std::to_string(max) + ") returned " + std::to_string(k) + " but the minimum of the maximum and the two horizons is " +
+                                                        std::to_string(want), i);
+                if (k > 20000) { // too long to tick: bring the twin along per timer; the single-timer property covers Timer::Skip itself
+                    B.t0.Skip(k);
+                    B.t1.Skip(k);
+                } else {
+                    for (uint64_t j = 0; j < k; ++j)
+                        B.ct.Tick();
+                }
+                if (k >= 1)
+                    nontrivial = true;
+                vf::klass(h1 < h0 && h1 <= max ? "pair: the later-registered timer limits the skip"
+                                               : (h0 < h1 && h0 <= max ? "pair: the first timer limits the skip" : "pair: the caller's maximum (or a tie) limits the skip"));
+                break;
+            }
+            default:
+                A.t(op.which).pause = B.t(op.which).pause = op.a & 1;
+                trace += std::string("pause") + std::to_string(op.which) + "=" + std::to_string(op.a & 1) + " ";
+                break;
+            }
+        } catch (const TeakraVerifAssertFailure& e) {
+            return fail("C15:coretiming:assert:" + std::string(e.expression), std::string("assertion ") + e.expression + " fired on an in-contract operation", i);
+        }
+        for (unsigned w = 0; w < 2; ++w) {
+            Teakra::Timer &x = A.t(w), &y = B.t(w);
+            if (x.counter != y.counter || x.counter_low != y.counter_low || x.counter_high != y.counter_high || A.irqs[w] != B.irqs[w])
+                return fail("C15:coretiming:twin:timer" + std::to_string(w),
+                            "after a bulk advance timer " + std::to_string(w) + " differs from the ticked twin: counter " + vf::hex(x.counter) + " vs " + vf::hex(y.counter) +
+                                ", interrupts " + std::to_string(A.irqs[w]) + " vs " + std::to_string(B.irqs[w]), i);
+        }
+    }
+    vf::note(vf::hash_str(pencode(cs)), nontrivial);
+    if (nontrivial && cs.size() <= 8)
+        vf::sample("pair: " + trace);
+    return vf::Result::pass();
+}
+rc::Gen<POp> genPOp() {
+    using namespace rc;
+    auto startGen = gen::weightedOneOf<uint64_t>({{5, vf::range<uint64_t>(0, 40)}, {3, vf::range<uint64_t>(0, 3000)}, {1, gen::element<uint64_t>(0xFFFF, 0x10000, 0xFFFFFFFFu)}});
+    auto maxGen = gen::weightedOneOf<uint64_t>({{2, gen::element<uint64_t>(0, 1, 2)}, {3, vf::range<uint64_t>(0, 200)}, {3, gen::element<uint64_t>(1000, 100000, 1ull << 40)}});
+    return gen::weightedOneOf<POp>({
+        {4, gen::map(gen::tuple(vf::range<unsigned>(0, 2), vf::range<uint64_t>(0, 3), startGen), [](std::tuple<unsigned, uint64_t, uint64_t> t) { return POp{0, std::get<0>(t), std::get<1>(t), std::get<2>(t)}; })},
+        {2, gen::map(vf::range<uint64_t>(0, 6), [](uint64_t n) { return POp{1, 0, n, 0}; })},
+        {6, gen::map(maxGen, [](uint64_t m) { return POp{2, 0, m, 0}; })},
+        {1, gen::map(gen::pair(vf::range<unsigned>(0, 2), vf::range<uint64_t>(0, 2)), [](std::pair<unsigned, uint64_t> p) { return POp{3, p.first, p.second, 0}; })},
+    });
+}
+
 } // namespace
 
 int main(int argc, char** argv) {
@@ -269,6 +399,17 @@ int main(int argc, char** argv) {
     p.encode = encode;
     p.decode = decode;
     p.max_size = 80;
+    p.share = 0.8;
     vf::run(p);
+
+    vf::Property<PCase> q;
+    q.name = "core_timing_pair";
+    q.gen = [] { return rc::gen::container<PCase>(genPOp()); };
+    q.check = pcheck;
+    q.encode = pencode;
+    q.decode = pdecode;
+    q.max_size = 40;
+    q.share = 0.2;
+    vf::run(q);
     return vf::finish();
 }
